@@ -3,6 +3,7 @@ from engine import sx
 from common import *
 
 PID = "C02"
+TIES = ['op_push_data', 'push_integer', 'vi_to_int']   # source-tie files coq/Properties/Tie_<f>.v that belong to this property
 THEOREMS = ["C02_tables_ok", "C02_assemble", "C02_scriptnum", "C02_disassemble", "C02_reassemble"]
 TECHNIQUE = "Coq proof (induction over token lists, reflective table lemmas on regenerated tables) + extracted model/spec correspondence"
 RULE = ("every named opcode alone and in pairs; integers 0..70000, powers of two +-1 up to 2^63 and top-byte-0x80 values; every data "
